@@ -255,6 +255,7 @@ def reference(lineage, chain):
         memo[key] = val
         _st.setdefault('memo_new', {})[key] = val
     _st.setdefault('refs_used', {})[key] = core.digest(memo[key])[:16]
+    _st.setdefault('lineages', {})[lk] = lineage
     if core.H('refsample', key) % 40 == 0:
         _st.setdefault('ref_samples', {})[key] = [lineage, chain,
                                                   core.digest(memo[key])[:16]]
@@ -628,6 +629,15 @@ class History(object):
             return None
         if len(a['lineage']['merges']) >= 2:
             return None
+        if _has_flag(a['lineage'], 'registered') != \
+                _has_flag(b['lineage'], 'registered'):
+            # A group loaded before the second property-set type was
+            # registered cannot take a set of that type (the loader's
+            # attribute-backed mapping has no item assignment: TypeError
+            # midway), and how much of the group was merged before that
+            # depends on the iteration order of a set of names, i.e. on the
+            # hash seed.  Outside what the property speaks about: not merged.
+            return None
         uq_before = libops.uq_canon(a['lib'])
         out, _ = libops.record(a['lib'].Update, b['lib'], op['overwrite'])
         if 'exc' in out and out['exc'] == 'ReadOnlyDataError' and \
@@ -673,6 +683,11 @@ class History(object):
         return ['digest', libops.lib_digest(s['lib'])[:12]]
 
 
+def _has_flag(lin, flag):
+    return bool(lin.get(flag)) or any(_has_flag(o, flag)
+                                      for o, _ in lin.get('merges', []))
+
+
 def _lin_copy(lin):
     out = {'base': list(lin['base']),
            'merges': [[_lin_copy(o), ov] for o, ov in lin.get('merges', [])]}
@@ -700,6 +715,7 @@ def _history_child(state, spec):
     install_seam()
     _st['refs_used'] = {}
     _st['ref_samples'] = {}
+    _st['lineages'] = {}
     _st['memo_new'] = {}
     h = History(spec).run()
     return {'viols': h.viols, 'digest': h.log.digest(), 'stats': h.stats,
@@ -707,6 +723,7 @@ def _history_child(state, spec):
             'global_digests': sorted(d[:12] for d in h.global_digests),
             'refs': dict(_st['refs_used']),
             'ref_samples': dict(_st['ref_samples']),
+            'lineages': dict(_st.get('lineages') or {}),
             'memo_new': dict(_st['memo_new'])}
 
 
@@ -1175,6 +1192,7 @@ def run_task(task):
             'global_digests': h['global_digests'],
             'refs': h['refs'],
             'ref_samples': h['ref_samples'],
+            'lineages': h.get('lineages', {}),
             'nontrivial': h['stats']['compared'] >= 1 and
             h['stats']['ops'] >= 2,
             'faulted': bool(spec['config']['fault_kinds']),
@@ -1242,6 +1260,10 @@ def cross_cell(cells, prop):
     merged = {}
     viols = []
     seen = set()
+    lineages = {}
+    for hs in sorted(cells):
+        for r in cells[hs]:
+            lineages.update(r.get('lineages') or {})
     for hs in sorted(cells):
         for r in cells[hs]:
             for k, v in r['refs'].items():
@@ -1250,7 +1272,8 @@ def cross_cell(cells, prop):
                     viols.append(core.violation(
                         PROP, 'fresh-nondeterminism', 'fresh-differs',
                         'reference-differs-between-fresh-processes',
-                        {'key': k[:300], 'hash_seeds': [merged[k][0], hs]}))
+                        {'key': k[:300], 'hash_seeds': [merged[k][0], hs],
+                         'lineage': lineages.get(k.split('|')[0])}))
                 merged.setdefault(k, (hs, v))
     for v in viols:
         v['spec'] = {'property': PROP, 'ops': [], 'note': 'see detail.key'}
